@@ -12,6 +12,8 @@ macro_rules! dispatch {
             "C05" => $f(&props::c05::C05 $(, $arg)*),
             "C06" => $f(&props::c06::C06 $(, $arg)*),
             "C07" => $f(&props::c07::C07 $(, $arg)*),
+            "C15" => $f(&props::c15::C15 $(, $arg)*),
+            "C16" => $f(&props::c16::C16 $(, $arg)*),
             "C17" => $f(&props::c17::C17 $(, $arg)*),
             "C18" => $f(&props::c18::C18 $(, $arg)*),
             "C20" => $f(&props::c20::C20 $(, $arg)*),
@@ -77,6 +79,7 @@ fn main() {
         "worker" => dispatch!(id, do_worker, &args[3]),
         "one" => dispatch!(id, do_one, &args[3]),
         "replay" => dispatch!(id, do_replay, &args[3]),
+        "dump16" => props::c16::child_main(&args[3]),
         _ => 2,
     };
     std::process::exit(code);
